@@ -227,7 +227,7 @@ def monitor(case, impl):
 
 
 WAIT_EXPECT = {"before": True, "after": False, "closed": True, "closedinit": True, "cbslow": True,
-               "zero": False, "neg": False, "zeroclosed": None, "reuse": True}
+               "zero": False, "neg": False, "zeroclosed": True, "reuse": True, "closedtiny": True}
 
 
 def monitor_wait(case, impl):
@@ -241,6 +241,9 @@ def monitor_wait(case, impl):
     ms = int(mo.group(2))
     exp = WAIT_EXPECT[m["mode"]]
     timeout, delta = int(m["timeout"]), int(m["delta"])
+    if m["mode"] == "closedtiny" and not res:
+        return ("waitutil-result", "WaitUtil with a zero / negative / 1 ns .. 20 us timeout on objects closed BEFORE the call returned false %d times of 40000: "
+                "the close happened before the timeout" % ms)
     if m["mode"] == "reuse" and not res:
         return ("waitutil-result", "after a WaitUtil(%dms) whose close and timer fired almost together, WaitUtil(5s) on a FRESH object closed after 10ms "
                 "returned false after %dms: something of the earlier call (a fired timer) leaked into it" % (timeout, ms))
@@ -446,6 +449,7 @@ def gen_wait(tier):
         for mode in ("before", "after", "closed", "closedinit", "cbslow", "zero", "neg", "zeroclosed"):
             cases.append("c16w mode=%s timeout=%d delta=%d" % (mode, timeout, delta))
     cases.append("c16w mode=reuse timeout=20 delta=1")
+    cases.append("c16w mode=closedtiny timeout=0 delta=0")
     return cases
 
 
